@@ -5,7 +5,9 @@ from checks.tlomig_lib import sx_parse, sx_str, unhex, repo_schemas, random_sche
 
 MODULES = ["TLVerif.Props.C26"]
 THEOREMS = ["TLVerif.Props.C26." + t for t in [
-    "counts_and_timestamps"]]
+    "counts_and_timestamps", "constructors_listed_once", "functions_listed_once", "constructor_tag_name",
+    "types_listed_once", "type_entry_faithful", "type_name_is_xor_of_tags",
+    "type_name_xor_fails_for_Type", "builtin_tag_fails_at"]]
 
 BUILTIN = {"int": 0xa8509bda, "long": 0x22076cba, "float": 0x824dab22, "double": 0x2210c154, "string": 0xb5286e24}
 
